@@ -100,6 +100,7 @@ type Exec struct {
 	funcIds        map[string]int64
 	strContents    map[int]*Content
 	guarded        map[string]bool
+	structuralOn   bool
 	findings       []*Finding
 }
 
@@ -1491,6 +1492,41 @@ func (x *Exec) implementsUF(iv *IfaceV, t types.Type) *Term {
 
 func (x *Exec) doSelect(fr *Frame, st *State, v *ssa.Select, k func(*State, SVal)) {
 	tb := x.tb
+	// structural obligation (C08): inside a loop, the channels a select waits on (context, total timer) are the
+	// same on every iteration - they are defined before the loop, not re-created or re-assigned in it
+	if fr.top && x.structuralOn {
+		inLoop := false
+		for hb := range fr.headers {
+			if hb.Dominates(v.Block()) {
+				inLoop = true
+			}
+		}
+		if inLoop {
+			for i, sst := range v.States {
+				ok := true
+				var why string
+				ch := sst.Chan
+				if call, isCall := ch.(*ssa.Call); isCall && call.Common().IsInvoke() && call.Common().Method.Name() == "Done" {
+					// ctx.Done(): same context value must be loop invariant
+					ch = call.Common().Value
+				}
+				if phi, isPhi := ch.(*ssa.Phi); isPhi {
+					if _, isHdr := fr.headers[phi.Block()]; isHdr {
+						ok, why = false, "is re-assigned inside the loop (phi at the loop header)"
+					}
+				} else if ins, isIns := ch.(ssa.Instruction); isIns {
+					for hb := range fr.headers {
+						if hb.Dominates(ins.Block()) && hb != ins.Block() || hb == ins.Block() {
+							ok, why = false, "is created inside the loop"
+						}
+					}
+				}
+				g := tb.Bool(ok)
+				o := x.addObl(st, fmt.Sprintf("%s/structural/select-channel-%d-loop-invariant", x.key, i), "structural", g, v.Pos(), nil)
+				o.Detail = why
+			}
+		}
+	}
 	// result tuple: (index int, recvOk bool, recv values...)
 	n := len(v.States)
 	lo := int64(0)
